@@ -18,7 +18,7 @@ import os
 import struct
 
 import vlib
-from checks.c05 import (run_proc, run_sharded, hx, ohx, parse_decoded, gen_valid_names, builds, drifted, SERIALS, U32, LENS,
+from checks.c05 import (run_proc, run_sharded, hx, ohx, parse_decoded, gen_valid_names, builds, drifted, coq_crosscheck, SERIALS, U32, LENS,
                         BAD_IFACE, BAD_MEMBER, BAD_BUS, BAD_PATH, path_of_len)
 
 BASICS = "ybnqiuxtdhsog"
@@ -423,6 +423,10 @@ def run(ctx):
             ctx.disagreements_checked += 1
             ctx.violation(problems[0], {"bytes": hx(b), "nfds": nf, "kind": kind, "impl": oi[:1500], "spec_model": om[:1500], "all": problems})
 
+    if ctx.tier == "thorough":
+        idxs = [i for i, x in enumerate(inputs) if 16 <= len(x[1]) <= 400 and model[i].startswith("D:")][:: max(1, len(inputs) // 14)][:14]
+        coq_crosscheck(ctx, [], [(inputs[i][1], inputs[i][2], model[i]) for i in idxs])
+
     # ---------------- 3. bytes_needed on a real RecvConn
     nn = 6000 if thorough else 1200
     pool = [x for x in inputs if len(x[1]) >= 12]
@@ -454,12 +458,44 @@ def run(ctx):
             ctx.disagreements_checked += 1
             ctx.tie_broken("correspondence: bytes_needed model differs from the implementation", "bytes: %s impl %s model %s" % (hx(b)[:200], oi, om))
     ctx.count("corpus", ncorpus)
+
+    # ---------------- 4. the 64 MiB limit of the field array itself (only the implementation: the byte strings are too
+    # large for the extracted model; the verdict is the specification's array limit, ValidHeader via encodable)
+    def big_header(hfl_target):
+        f = bytes([1, 1]) + b"o\0" + struct.pack("<I", 2) + b"/p\0"
+        f += bytes(pad8(16 + len(f)))
+        f += bytes([3, 1]) + b"s\0" + struct.pack("<I", 1) + b"M\0"
+        f += bytes(pad8(16 + len(f)))
+        head = bytes([42, 2]) + b"ay\0"                   # unknown field: a byte array fills the rest
+        f += head
+        f += bytes(pad8(16 + len(f)) % 4)
+        L = hfl_target - len(f) - 4
+        f += struct.pack("<I", L) + bytes(L)
+        assert len(f) == hfl_target
+        h = b"l" + bytes([1, 0, 1]) + struct.pack("<III", 0, 1, len(f)) + f
+        return h + bytes(pad8(len(h)))
+    for hfl, valid in (((1 << 26), True), ((1 << 26) + 8, False)):
+        b = big_header(hfl)
+        rc, o, e = run_proc(exe, ["d %s 0" % b.hex()])
+        ctx.evaluations += 1
+        ctx.count("big-array:" + ("valid" if valid else "too-long"))
+        if rc != 0 or len(o) != 1 or not o[0].startswith("D:"):
+            ctx.violation("the header decoder crashed on a header with a 64 MiB field array", {"hfl": hfl, "stderr": e[-300:]}, no_input=False)
+            continue
+        ok = o[0].startswith("D:ok")
+        if ok != valid:
+            ctx.disagreements_checked += 1
+            ctx.violation("a header whose field array is %d bytes long (limit 2^26) is %s" % (hfl, "accepted" if ok else "rejected"),
+                          {"big_hfl": hfl, "impl": o[0][:200]})
     ctx.exhaustive = False
 
 
 def replay(ctx, body):
     data = body["data"]
     exe, drv = builds(ctx)
+    if "big_hfl" in data:
+        print("re-run ./check C06 quick: the witness (a %d byte field array) is generated by the check itself" % data["big_hfl"])
+        return 1
     if "needed_bytes" in data:
         b = bytes.fromhex(data["needed_bytes"]) if data["needed_bytes"] != "-" else b""
         oi = run_proc(exe, ["n " + hx(b)])[1]
